@@ -72,52 +72,100 @@ pub enum LOp {
     Process(u64),
 }
 
-/// Model: the queue is FIFO; a call frees a prefix of it, only items with age < min_version,
-/// at most `bulk_threshold` of them, reports exactly the number of callbacks, and never
-/// duplicates or loses an item.
+/// Model: blocks are retired with (offset, size, age); consecutive pushes are often adjacent in
+/// memory.  Whatever the list does internally (FIFO, batching, coalescing), every byte range
+/// handed to the free callback must consist of pending blocks whose age is below the threshold
+/// of that call, the return value equals the number of callbacks, no block is freed twice, and
+/// once the threshold exceeds every age repeated processing frees everything.
 fn run_lazy(ctx: &mut Ctx, threshold: usize, ops: &[LOp]) {
     let mut list = if threshold == 0 { LazyFreeList::new() } else { LazyFreeList::with_bulk_threshold(threshold) };
-    let mut model: std::collections::VecDeque<(u64, u32)> = Default::default();
-    let mut next_id = 0u32;
+    // pending blocks by offset -> (size, age)
+    let mut pending: std::collections::BTreeMap<u32, (u32, u64)> = Default::default();
+    let mut next_off = 64u32;
     let mut unordered = false;
+    let mut last_age = 0u64;
     let mut longest = 0usize;
+    let mut mixed_age_neighbours = false;
+    let judge = |ctx: &mut Ctx, pending: &mut std::collections::BTreeMap<u32, (u32, u64)>, mv: u64, freed: &[(u64, u32, u32)]| -> bool {
+        for &(age, off, size) in freed {
+            let mut at = off;
+            let end = off.saturating_add(size);
+            if size == 0 {
+                continue;
+            }
+            while at < end {
+                match pending.remove(&at) {
+                    Some((sz, a)) => {
+                        if a >= mv {
+                            ctx.fail("reclaim", "mismatch", "item_freed_while_visible", format!("bytes {at:#x}..{:#x} were retired at version {a}, yet the free callback received {off:#x}..{end:#x} (stamp {age}) with min_version {mv}", at + sz));
+                            return false;
+                        }
+                        at += sz;
+                    }
+                    None => {
+                        ctx.fail("reclaim", "mismatch", "freed_range_not_pending", format!("free callback received {off:#x}..{end:#x} (stamp {age}); no pending block starts at {at:#x} (freed twice or never retired)"));
+                        return false;
+                    }
+                }
+            }
+            if at != end {
+                ctx.fail("reclaim", "mismatch", "freed_range_not_pending", format!("free callback range {off:#x}..{end:#x} ends inside a retired block"));
+                return false;
+            }
+        }
+        true
+    };
     for op in ops {
         match *op {
             LOp::Push(a) | LOp::PushRun(a, _) => {
                 let n = if let LOp::PushRun(_, n) = *op { n as usize } else { 1 };
-                for _ in 0..n {
-                    if model.back().map(|b| b.0 > a).unwrap_or(false) {
+                for k in 0..n {
+                    if a < last_age {
                         unordered = true;
                     }
-                    list.push(LazyFreeItem::new(a, next_id, 8));
-                    model.push_back((a, next_id));
-                    next_id += 1;
+                    if a != last_age && !pending.is_empty() {
+                        mixed_age_neighbours = true;
+                    }
+                    last_age = a;
+                    // mostly adjacent to the previous block, sometimes after a gap
+                    if (a as usize + k) % 5 == 4 {
+                        next_off += 24;
+                    }
+                    let size = 8 + 8 * ((a as u32 + k as u32) % 3);
+                    list.push(LazyFreeItem::new(a, next_off, size));
+                    pending.insert(next_off, (size, a));
+                    next_off += size;
                 }
-                longest = longest.max(model.len());
+                longest = longest.max(pending.len());
             }
             LOp::Process(mv) => {
-                let mut freed: Vec<(u64, u32)> = vec![];
-                let Some(n) = ctx.no_panic("process_safe_items", || list.process_safe_items(mv, |it| freed.push((it.age, it.memory_offset)))) else { return };
+                let mut freed: Vec<(u64, u32, u32)> = vec![];
+                let Some(n) = ctx.no_panic("process_safe_items", || list.process_safe_items(mv, |it| freed.push((it.age, it.memory_offset, it.size)))) else { return };
                 ctx.eq("process_safe_items", "returned_count", &n, &freed.len());
-                if let Some(bad) = freed.iter().find(|f| f.0 >= mv) {
-                    ctx.fail("reclaim", "mismatch", "item_freed_while_visible", format!("item retired at version {} handed to the free callback with min_version {mv} (queue of {} items, {})", bad.0, model.len(), if unordered { "ages not monotone" } else { "ages monotone" }));
-                }
-                let prefix: Vec<(u64, u32)> = model.iter().take(freed.len()).copied().collect();
-                if !ctx.eq("process_safe_items", "frees_queue_prefix", &freed, &prefix) {
+                if !judge(ctx, &mut pending, mv, &freed) {
                     return;
-                }
-                for _ in 0..freed.len() {
-                    model.pop_front();
                 }
             }
         }
-        ctx.eq("len", "", &list.len(), &model.len());
+    }
+    // drain: with a threshold above every age, repeated processing must free everything
+    for _ in 0..(pending.len() + 4) {
+        let mut freed: Vec<(u64, u32, u32)> = vec![];
+        let Some(n) = ctx.no_panic("process_safe_items", || list.process_safe_items(u64::MAX, |it| freed.push((it.age, it.memory_offset, it.size)))) else { return };
+        if !judge(ctx, &mut pending, u64::MAX, &freed) {
+            return;
+        }
+        if n == 0 {
+            break;
+        }
+    }
+    ctx.ensure("reclaim", "retired_block_never_freed", pending.is_empty(), || format!("{} retired blocks were never handed to the free callback although min_version exceeds every age", pending.len()));
+    ctx.ensure("len", "after_drain", list.is_empty(), || format!("len() = {} after everything was freed", list.len()));
+    if mixed_age_neighbours && longest >= 2 {
+        ctx.nontrivial();
     }
     if unordered && longest >= 32 {
-        ctx.nontrivial();
         ctx.label("lazy_queue>=32_and_unordered");
-    } else if longest >= 2 {
-        ctx.nontrivial();
     }
     ctx.label(format!("lazy_threshold={threshold}"));
 }
@@ -711,7 +759,7 @@ impl Prop for P {
         "C16"
     }
     fn rule(&self) -> &'static str {
-        "Part A: 2-3 threads x 1-5 token ops (acquire reader/writer, drop, return-to-cache, clear cache, with_*_token, retire) against one manager, interleaved by a generated schedule consumed at the cfg(zipora_verif) yield points (random byte schedules + bounded-exhaustive <=2 forced switches for fixed programs); invariants checked at every yield point with all threads parked. Non-trivial = at least one context switch taken at a yield point inside a zipora token operation (not at an op boundary); distinct by hash of (programs, effective switch sequence). Part A': the same programs looped 60x on 2-8 real unscheduled OS threads, 6 fresh managers per case (race windows without a yield point; same oracle, thread-side checks only). Part C: sequential LazyFreeList histories (push with ages in any order, runs longer than the bulk threshold, process_safe_items at generated thresholds) against a FIFO model. Part B: sequential multi-manager histories on a fresh thread; non-trivial = a manager dropped while one of its tokens is live or cached (physically only in the ASan flavour)."
+        "Part A: 2-3 threads x 1-5 token ops (acquire reader/writer, drop, return-to-cache, clear cache, with_*_token, retire) against one manager, interleaved by a generated schedule consumed at the cfg(zipora_verif) yield points (random byte schedules + bounded-exhaustive <=2 forced switches for fixed programs); invariants checked at every yield point with all threads parked. Non-trivial = at least one context switch taken at a yield point inside a zipora token operation (not at an op boundary); distinct by hash of (programs, effective switch sequence). Part A': the same programs looped 60x on 2-8 real unscheduled OS threads, 6 fresh managers per case (race windows without a yield point; same oracle, thread-side checks only). Part C: sequential LazyFreeList histories (blocks with offsets and sizes, mostly adjacent in memory, ages in any order, runs longer than the bulk threshold, process_safe_items at generated thresholds): every freed byte range must consist of pending blocks older than the threshold, nothing freed twice, everything freed in the end. Part B: sequential multi-manager histories on a fresh thread; non-trivial = a manager dropped while one of its tokens is live or cached (physically only in the ASan flavour)."
     }
     fn assumptions(&self) -> Vec<String> {
         vec![
